@@ -131,13 +131,16 @@ impl Molecule {
         for (i, atomic_number) in self.atomic_numbers.iter().enumerate() {
             let coord = self.coordinates.get(i).expect("N_atoms != N_coords");
 
-            let neighbours: Vec<usize> = self
+            let mut neighbours: Vec<usize> = self
                 .connectivity
                 .bonds
                 .iter()
                 .filter(|b| b.contains_index(i))
                 .map(|b| b.other(i).unwrap())
                 .collect();
+            // The bonds are held in a HashSet, whose iteration order differs between instances and runs;
+            // atom typing and improper dihedrals read this list positionally, so give it a defined order
+            neighbours.sort_unstable();
 
             atoms.push(Atom {
                 idx: i,
